@@ -23,6 +23,9 @@ var fusionInts = []fusionPat{
 	{"slice[int]", "xs[1]"}, {"map[const]", "m[\"k\"]"}, {"local.field", "t.n"}, {"local.method()", "t.get()"},
 	{"global()", "gf()"}, {"x+1", "a + 1"}, {"x-1", "a - 1"}, {"local", "a"}, {"const", "2"}, {"global", "G"},
 	{"param.field", "p.n"}, {"len(local)", "len(xs)"}, {"nested field", "t.in.n"},
+	// constants that reach the peephole pass as more than one instruction (unary operators on character and
+	// parenthesised constants), and fusion chains of more than two links
+	{"-rune", "-'\\x01'"}, {"local - -rune", "a - -'\\x01'"}, {"local + ^rune", "a + ^'\\x02'"}, {"-local", "-a"}, {"x+1+1", "a + 1 + 1"}, {"x-1+2", "b - 1 + 2"},
 }
 
 var fusionBools = []fusionPat{
@@ -35,6 +38,8 @@ var fusionStmts = []fusionPat{
 	{"slice[int]=", "xs[1] = a"}, {"map[const]=", "m[\"k\"] = b"}, {"local.field=", "t.n = a"}, {"local=local+local", "r = a + b"},
 	{"local.field++", "t.n++"}, {"slice[int]++", "xs[1]++"}, {"map[const]+=", "m[\"k\"] += 2"}, {"call stmt", "gf()"}, {"method stmt", "t.get()"},
 	{"field=field", "t.n = t.in.n"}, {"global=", "G = a"}, {"empty", ""},
+	{"local-=-rune", "a -= -'\\x01'"}, {"local+=-rune", "b += -'\\x02'"}, {"local=local- -rune", "a = a - -'\\x01'"}, {"local+=^rune", "a += ^'\\x01'"},
+	{"local=local+1+1", "a = a + 1 + 1"}, {"field-=-rune", "t.n -= -'\\x01'"}, {"slice[int]-=-rune", "xs[1] -= -'\\x02'"},
 }
 
 // contexts: E = boolean expression under test, P = int expression, S = statement
